@@ -721,6 +721,38 @@ pub fn run_inputs(opts: &Opts, only: Option<Vec<Vec<u8>>>) -> Run {
                 }
             }
         }
+        // hand-built minimal dictionaries: each entropy-table slot in turn holds a table a frame must never be able to use
+        // (all probability on a symbol beyond the slot's alphabet; zero-bit tables; the zero-bit weight description), with a
+        // frame whose first block takes exactly that table from the dictionary (Repeat_Mode / treeless literals)
+        for (db, fb, label) in handmade_dicts() {
+            run.oracle_checks += 1;
+            let replay = format!("hostile dict {} frame {}", hex(&db), hex(&fb));
+            let (m2, f2) = (db.clone(), fb.clone());
+            let r = with_deadline(10_000, move || {
+                guarded(|| {
+                    if let Ok(d) = ruzstd::decoding::Dictionary::decode_dict(&m2) {
+                        let mut dec = FrameDecoder::new();
+                        let _ = dec.add_dict(d);
+                        let mut out = Vec::with_capacity(1 << 16);
+                        let _ = dec.decode_all_to_vec(&f2, &mut out);
+                        let mut src = &f2[..];
+                        if dec.reset(&mut src).is_ok() {
+                            let _ = dec.decode_blocks(&mut src, BlockDecodingStrategy::All);
+                        }
+                    }
+                })
+            });
+            match r {
+                None => {
+                    run.fail("C03", "hang_dict", format!("[hand-built dictionary: {}] did not finish", label), replay);
+                    run.notes.push("aborted after a hang (hand-built dictionary)".into());
+                    return run;
+                }
+                Some(Err(p)) => run.fail("C03", &format!("panic_dict:{}", p.rsplit(" @ ").next().unwrap_or("?")), format!("[hand-built dictionary: {}] panic: {}", label, p), replay),
+                Some(Ok(())) => {}
+            }
+            run.stat("hostile_dicts_handmade", 1);
+        }
         run.stat("ms:dict_total", t_dict.elapsed().as_millis() as u64);
     } else {
         run.notes.push("zstd::dict::from_samples failed; hostile dictionary stream skipped".into());
@@ -824,6 +856,30 @@ pub fn directed_hostile() -> Vec<(Vec<u8>, String)> {
             v.push((b, label.to_string()));
         }
     }
+    // Huffman weight descriptions whose FSE table has ZERO-BIT states (one symbol with the whole probability: the two-state
+    // weight loop consumes no bits and is only bounded by the weight count), one and four streams, also behind a good table
+    for desc in [vec![0x04u8, 0xF0, 0x03, 0x00, 0x80], vec![0x03, 0xF0, 0x03, 0x80], vec![0x05, 0xF0, 0x03, 0x00, 0x00, 0x80], vec![0x04, 0xF1, 0x07, 0x00, 0x80]] {
+        for streams4 in [false, true] {
+            let regen: u32 = 16;
+            let mut lit = desc.clone();
+            if streams4 {
+                lit.extend_from_slice(&[1, 0, 1, 0, 1, 0]);
+                lit.extend_from_slice(&[1, 1, 1, 1]);
+            } else {
+                lit.push(0x01);
+            }
+            let comp = lit.len() as u32;
+            let lh: u32 = 2 | (if streams4 { 1 } else { 0 } << 2) | (regen << 4) | (comp << 14);
+            let mut body = lh.to_le_bytes()[..3].to_vec();
+            body.extend_from_slice(&lit);
+            body.push(0);
+            let bh: u32 = 1 | (2 << 1) | ((body.len() as u32) << 3);
+            let mut f = vec![0x28, 0xb5, 0x2f, 0xfd, 0x20, regen as u8];
+            f.extend_from_slice(&bh.to_le_bytes()[..3]);
+            f.extend_from_slice(&body);
+            v.push((f, format!("weight description {} with zero-bit FSE states, {} stream(s)", hex(&desc), if streams4 { 4 } else { 1 })));
+        }
+    }
     // four-stream literals: jump tables around the size of the stream area (sum of the three sizes = area - 1 … area + 8),
     // two 1-bit symbols (direct description `81 11`), regenerated sizes 4 … 12
     for area in [0usize, 1, 2, 3, 6, 12] {
@@ -855,5 +911,66 @@ pub fn directed_hostile() -> Vec<(Vec<u8>, String)> {
             }
         }
     }
+    v
+}
+
+/// (dictionary bytes, frame bytes, label): see the call site
+fn handmade_dicts() -> Vec<(Vec<u8>, Vec<u8>, String)> {
+    const ID: u32 = 0x5A;
+    let ok: Vec<u8> = vec![0xF0, 0x03]; // accuracy log 5, symbol 0 has probability 32
+    // accuracy log 5, symbols 0..=39 probability 0, symbol 40 probability 32 (beyond the LL alphabet 0..=35 and the OF alphabet 0..=31)
+    let sym40: Vec<u8> = vec![0x10, 0xFE, 0xFF, 0xFF, 0xE7, 0x07];
+    let huf_ok: Vec<u8> = vec![0x80, 0x10];
+    let huf_zero_bit: Vec<u8> = vec![0x04, 0xF0, 0x03, 0x00, 0x80];
+    let dict = |huf: &[u8], of: &[u8], ml: &[u8], ll: &[u8], offs: [u32; 3]| -> Vec<u8> {
+        let mut raw = vec![0x37, 0xA4, 0x30, 0xEC];
+        raw.extend_from_slice(&ID.to_le_bytes());
+        raw.extend_from_slice(huf);
+        raw.extend_from_slice(of);
+        raw.extend_from_slice(ml);
+        raw.extend_from_slice(ll);
+        for o in offs {
+            raw.extend_from_slice(&o.to_le_bytes());
+        }
+        raw.extend_from_slice(&[b'A'; 32]);
+        raw
+    };
+    // frames: raw literals "abcd", one sequence, modes byte `modes`, a stream that is only the padding marker (all states
+    // and extra bits read as 0) or a few set bits
+    let frame = |modes: u8, stream: &[u8]| -> Vec<u8> {
+        let mut block = vec![4 << 3];
+        block.extend_from_slice(b"abcd");
+        block.push(0x01);
+        block.push(modes);
+        block.extend_from_slice(stream);
+        let mut f = vec![0x28, 0xB5, 0x2F, 0xFD, 0x21, ID as u8, 7];
+        let h = 1u32 | (2 << 1) | ((block.len() as u32) << 3);
+        f.extend_from_slice(&h.to_le_bytes()[..3]);
+        f.extend_from_slice(&block);
+        f
+    };
+    let treeless = {
+        let mut f = vec![0x28, 0xB5, 0x2F, 0xFD, 0x21, ID as u8, 4];
+        f.extend_from_slice(&[0x25, 0x00, 0x00, 0x13, 0x40, 0x00, 0xff]);
+        f
+    };
+    let mut v = vec![];
+    let streams: [&[u8]; 3] = [&[0x80], &[0xFF, 0xFF, 0x01], &[0x00, 0x40]];
+    for (slot, modes) in [("LL", 0b11_00_00_00u8), ("OF", 0b00_11_00_00), ("ML", 0b00_00_11_00), ("all three", 0b11_11_11_00)] {
+        for (tname, t) in [("symbol 40 only", &sym40), ("symbol 0 only (zero-bit states)", &ok)] {
+            let (of, ml, ll) = match slot {
+                "LL" => (&ok, &ok, t),
+                "OF" => (t, &ok, &ok),
+                "ML" => (&ok, t, &ok),
+                _ => (t, t, t),
+            };
+            for st in streams {
+                v.push((dict(&huf_ok, of, ml, ll, [1, 4, 8]), frame(modes, st), format!("{} table = {}, frame repeats it", slot, tname)));
+            }
+        }
+    }
+    v.push((dict(&huf_zero_bit, &ok, &ok, &ok, [1, 4, 8]), treeless.clone(), "Huffman description with zero-bit FSE states, treeless frame".into()));
+    v.push((dict(&huf_ok, &ok, &ok, &ok, [0, 0, 0]), frame(0b11_11_11_00, &[0x80]), "all repeat offsets 0, frame repeats all tables".into()));
+    v.push((dict(&huf_ok, &ok, &ok, &ok, [1, 4, 8]), treeless, "well-formed dictionary, treeless frame".into()));
     v
 }
